@@ -1377,6 +1377,49 @@ func c09RevisionFacts(w *World) c09RevFacts {
 		}
 		return false
 	}
+	mkOrderAtom := func(isThis, isPrev func(ssa.Value, *symCtx) bool) func(a *pcAtom, ord int) (val, known bool) {
+		return func(a *pcAtom, ord int) (val, known bool) {
+			rel := func(x, y ssa.Value) int { // +1: (this, prev); -1: (prev, this); 0: something else
+				switch {
+				case isThis(x, a.ctx) && isPrev(y, a.ctx):
+					return 1
+				case isPrev(x, a.ctx) && isThis(y, a.ctx):
+					return -1
+				}
+				return 0
+			}
+			timeCall := func(v ssa.Value) (string, int) {
+				c, ok := v.(*ssa.Call)
+				if !ok || c.Call.StaticCallee() == nil || len(c.Call.Args) != 2 {
+					return "", 0
+				}
+				return c.Call.StaticCallee().String(), rel(c.Call.Args[0], c.Call.Args[1])
+			}
+			if a.op == token.ILLEGAL && a.subj == "" {
+				if name, d := timeCall(a.v); d != 0 {
+					switch name {
+					case "(time.Time).After":
+						return ord*d > 0, true
+					case "(time.Time).Before":
+						return ord*d < 0, true
+					case "(time.Time).Equal":
+						return ord == 0, true
+					}
+				}
+			}
+			if a.op == token.EQL && a.x != nil && a.y != nil && a.x.Type().String() == "time.Time" && rel(a.x, a.y) != 0 {
+				return ord == 0, true
+			}
+			if bo, ok := a.v.(*ssa.BinOp); ok && a.subj != "" {
+				for _, side := range []ssa.Value{bo.X, bo.Y} {
+					if name, d := timeCall(side); d != 0 && name == "(time.Time).Compare" {
+						return a.set.contains(int64(ord * d)), true
+					}
+				}
+			}
+			return false, false
+		}
+	}
 	checked := false
 	for _, l := range ssaLoops(f) {
 		body := l.body()
@@ -1417,47 +1460,7 @@ func c09RevisionFacts(w *World) c09RevFacts {
 			}
 			// an atom that compares this date with the remembered one: its truth value when
 			// this date is later (ord = 1), the same (0) or earlier (-1)
-			orderAtom := func(a *pcAtom, ord int) (val, known bool) {
-				rel := func(x, y ssa.Value) int { // +1: (this, prev); -1: (prev, this); 0: something else
-					switch {
-					case isThis(x, a.ctx) && isPrev(y, a.ctx):
-						return 1
-					case isPrev(x, a.ctx) && isThis(y, a.ctx):
-						return -1
-					}
-					return 0
-				}
-				timeCall := func(v ssa.Value) (string, int) {
-					c, ok := v.(*ssa.Call)
-					if !ok || c.Call.StaticCallee() == nil || len(c.Call.Args) != 2 {
-						return "", 0
-					}
-					return c.Call.StaticCallee().String(), rel(c.Call.Args[0], c.Call.Args[1])
-				}
-				if a.op == token.ILLEGAL && a.subj == "" {
-					if name, d := timeCall(a.v); d != 0 {
-						switch name {
-						case "(time.Time).After":
-							return ord*d > 0, true
-						case "(time.Time).Before":
-							return ord*d < 0, true
-						case "(time.Time).Equal":
-							return ord == 0, true
-						}
-					}
-				}
-				if a.op == token.EQL && a.x != nil && a.y != nil && a.x.Type().String() == "time.Time" && rel(a.x, a.y) != 0 {
-					return ord == 0, true
-				}
-				if bo, ok := a.v.(*ssa.BinOp); ok && a.subj != "" {
-					for _, side := range []ssa.Value{bo.X, bo.Y} {
-						if name, d := timeCall(side); d != 0 && name == "(time.Time).Compare" {
-							return a.set.contains(int64(ord * d)), true
-						}
-					}
-				}
-				return false, false
-			}
+			orderAtom := mkOrderAtom(isThis, isPrev)
 			for _, lt := range l.Latches {
 				v := phiEdge(phi, lt)
 				if !parseBlock.Dominates(lt) {
@@ -1493,9 +1496,176 @@ func c09RevisionFacts(w *World) c09RevFacts {
 		}
 	}
 	if !checked {
+		checked = c09RevisionStateStruct(w, f, sym, isParse0, reachesParse, mkOrderAtom, &out)
+	}
+	if !checked {
 		panic(undecided{"checkRevisionOrder: loop-carried revision date not found"})
 	}
 	return out
+}
+
+// c09RevisionStateStruct: the remembered date lives in a field of a small
+// state object and one loop-free function of the package, called in the loop
+// for each revision, compares and updates it: every exit of that function
+// that reports no error has stored the date just parsed into the field and is
+// reached only when that date is earlier than the remembered one; the loop
+// goes on only after such an exit, and nothing else writes the field.
+func c09RevisionStateStruct(w *World, f *ssa.Function, sym *Sym, isParse0 func(ssa.Value) bool, reachesParse func(*ssa.Function, int) bool,
+	mkOrderAtom func(isThis, isPrev func(ssa.Value, *symCtx) bool) func(*pcAtom, int) (bool, bool), out *c09RevFacts) bool {
+	for _, l := range ssaLoops(f) {
+		body := l.body()
+		for b := range body {
+			for _, in := range b.Instrs {
+				c, ok := in.(*ssa.Call)
+				if !ok {
+					continue
+				}
+				h := c.Call.StaticCallee()
+				if h == nil || h.Blocks == nil || h.Pkg != f.Pkg || len(ssaLoops(h)) > 0 || !reachesParse(h, 0) || h.Signature.Results().Len() != 1 {
+					continue
+				}
+				// the field of time.Time that h reads and writes through one of its pointer parameters
+				var state *ssa.Parameter
+				field := -1
+				var stores []*ssa.Store
+				for _, hb := range h.Blocks {
+					for _, hin := range hb.Instrs {
+						st, isSt := hin.(*ssa.Store)
+						if !isSt {
+							continue
+						}
+						fa, isFA := st.Addr.(*ssa.FieldAddr)
+						if !isFA || st.Val.Type().String() != "time.Time" {
+							continue
+						}
+						prm, isP := fa.X.(*ssa.Parameter)
+						if !isP {
+							continue
+						}
+						if state != nil && (state != prm || field != fa.Field) {
+							return false
+						}
+						state, field = prm, fa.Field
+						stores = append(stores, st)
+					}
+				}
+				if state == nil {
+					continue
+				}
+				out.phiPos = h.Pos()
+				isPrevLoad := func(v ssa.Value) bool {
+					ld, isLd := v.(*ssa.UnOp)
+					if !isLd || ld.Op != token.MUL {
+						return false
+					}
+					fa, isFA := ld.X.(*ssa.FieldAddr)
+					if !isFA || fa.X != ssa.Value(state) || fa.Field != field {
+						return false
+					}
+					// read before any update
+					for _, st := range stores {
+						if st.Block() == ld.Block() {
+							for _, x := range ld.Block().Instrs {
+								if x == ssa.Instruction(st) {
+									return false
+								}
+								if x == ssa.Instruction(ld) {
+									break
+								}
+							}
+						} else if st.Block().Dominates(ld.Block()) {
+							return false
+						}
+					}
+					return true
+				}
+				isThis := func(v ssa.Value, ctx *symCtx) bool {
+					os := sym.Origins(v, ctx, 0)
+					for _, o := range os {
+						if !isParse0(o.v) {
+							return false
+						}
+					}
+					return len(os) > 0
+				}
+				isPrev := func(v ssa.Value, ctx *symCtx) bool {
+					os := sym.Origins(v, ctx, 0)
+					for _, o := range os {
+						if !isPrevLoad(o.v) {
+							return false
+						}
+					}
+					return len(os) > 0
+				}
+				orderAtom := mkOrderAtom(isThis, isPrev)
+				for _, hb := range h.Blocks {
+					ret, isRet := hb.Instrs[len(hb.Instrs)-1].(*ssa.Return)
+					if !isRet || len(ret.Results) != 1 {
+						continue
+					}
+					stored := false
+					for _, st := range stores {
+						if st.Block() == hb || st.Block().Dominates(hb) {
+							stored = true
+							if !isThis(st.Val, nil) {
+								out.chainWhy = "after a revision was accepted the remembered date is `" + st.Val.String() + "`, not that revision's date"
+							}
+						}
+					}
+					if !isNilConst(ret.Results[0]) {
+						continue // a refusal: the walk ends
+					}
+					if !stored {
+						out.chainWhy = "a revision is accepted without its date being remembered"
+					}
+					cond := sym.PathCond(h.Blocks[0], hb, nil)
+					for _, ord := range []int{1, 0} {
+						reached, decided := pcEvalFree(cond, func(a *pcAtom) (bool, bool) { return orderAtom(a, ord) })
+						if decided && !reached {
+							continue
+						}
+						why := ": the loop can go on to the next revision although this date is not earlier than the remembered one"
+						if ord == 1 {
+							out.afterWhy = why
+						} else {
+							out.equalWhy = why
+						}
+					}
+				}
+				// the loop goes on only when h reported no error, and nothing else writes the field
+				for _, lt := range l.Latches {
+					if !(c.Block() == lt || c.Block().Dominates(lt)) {
+						continue
+					}
+					plain := NewSym(w)
+					plain.Expand = false // the verdict of h as one test, not read through
+					latchCond := plain.RoundCond(l.Header, lt, nil)
+					sawErr := false
+					msg := pcImplies(latchCond, func(a *pcAtom) string {
+						if (a.op == token.EQL) && a.x != nil && a.y != nil && ((a.x == ssa.Value(c) && isNilConst(a.y)) || (a.y == ssa.Value(c) && isNilConst(a.x))) {
+							sawErr = true
+							return "noerr"
+						}
+						return ""
+					}, func(env map[string]bool) bool { return env["noerr"] })
+					if msg != "" || !sawErr {
+						out.afterWhy, out.equalWhy = ": the walk goes on after a revision was refused", ": the walk goes on after a revision was refused"
+					}
+				}
+				for _, fb := range f.Blocks {
+					for _, fin := range fb.Instrs {
+						if st, isSt := fin.(*ssa.Store); isSt {
+							if fa, isFA := st.Addr.(*ssa.FieldAddr); isFA && fa.Field == field && st.Val.Type().String() == "time.Time" {
+								out.chainWhy = "the remembered date is also written outside " + h.Name()
+							}
+						}
+					}
+				}
+				return true
+			}
+		}
+	}
+	return false
 }
 
 // c09CardinalityDecision evaluates the loop of checkCardinality that walks the
